@@ -1,12 +1,113 @@
-(* C13 — decoders and byte-level entry points are total (ABI canonical CBOR decoder, panic/alloc/depth aware model).
-   Only property theorems live here. *)
+(* C13 — decoders and byte-level entry points are total.
+   Subject: the panic/alloc/depth-aware model [dec_pa] (Model/CborPA.v) of
+   crates/echo-wasm-abi/src/canonical.rs :: decode_value.  [cfg_unguarded] = the decoder as it is in /repo
+   (cfg_repo, see [repo_cfg_known]); [cfg_guarded] = the decoder with the proposed element-budget + depth guard.
+   Only property theorems live here: each is closed by [exact], pinned by [Check] and followed by [Print Assumptions]. *)
 From Coq Require Import List NArith ZArith.
 From Echo Require Import Base.Bytes Model.CborPA Proofs.CborPAProofs.
 Import ListNotations.
 Open Scope N_scope.
 
-(* REFUTED on the decoder as it is (cfg_unguarded): forall b, result (dec_pa cfg b) is not a panic. *)
+(* ---- facts that hold for EVERY configuration, in particular for the decoder as it is ---- *)
+
+(* Termination: fuel 2*len+3 is never exhausted (the recursion of dec_value is well founded). *)
+Theorem dec_terminates : forall c b, lenN b <= usize_max c -> result (dec_pa c b) <> Fuel.
+Proof. exact pa_terminates. Qed.
+Check dec_terminates : forall c b, lenN b <= usize_max c -> result (dec_pa c b) <> Fuel.
+Print Assumptions dec_terminates.
+
+(* No slice-index, slice-order or usize-overflow panic is reachable: the only possible panic is
+   Vec::with_capacity's capacity overflow. *)
+Theorem dec_panic_only_capacity : forall c b,
+  lenN b <= usize_max c -> forall p, result (dec_pa c b) = Panic p -> p = PCapacity.
+Proof. exact pa_panic_only_capacity. Qed.
+Check dec_panic_only_capacity : forall c b,
+  lenN b <= usize_max c -> forall p, result (dec_pa c b) = Panic p -> p = PCapacity.
+Print Assumptions dec_panic_only_capacity.
+
+(* ---- the property, for any guarded configuration (element budget + depth limit) ---- *)
+
+(* FULL STATEMENT: forall b, result (dec_pa cfg b) is not a panic.  Hypotheses: the configuration is
+   guarded, isize <= usize, and 64 * len fits isize (any input shorter than 2^57 bytes on 64-bit targets,
+   2^25 bytes on wasm32). *)
+Theorem dec_no_panic : forall c b,
+  is_guarded c = true -> isize_max c <= usize_max c -> size_entry * lenN b <= isize_max c ->
+  forall p, result (dec_pa c b) <> Panic p.
+Proof. exact guarded_no_panic. Qed.
+Check dec_no_panic : forall c b,
+  is_guarded c = true -> isize_max c <= usize_max c -> size_entry * lenN b <= isize_max c ->
+  forall p, result (dec_pa c b) <> Panic p.
+Print Assumptions dec_no_panic.
+
+(* Peak live heap bytes (decoded value + pre-allocated buffers + live map-key copies) never exceed
+   66 bytes per input byte, for every outcome (value or error), independent of nesting. *)
+Theorem dec_alloc_linear : forall c b,
+  is_guarded c = true -> isize_max c <= usize_max c -> size_entry * lenN b <= isize_max c ->
+  alloc_peak (dec_pa c b) <= 66 * lenN b.
+Proof. exact guarded_alloc_linear. Qed.
+Check dec_alloc_linear : forall c b,
+  is_guarded c = true -> isize_max c <= usize_max c -> size_entry * lenN b <= isize_max c ->
+  alloc_peak (dec_pa c b) <= 66 * lenN b.
+Print Assumptions dec_alloc_linear.
+
+(* The recursion never goes deeper than limit + 1 frames below the root. *)
+Theorem dec_depth_bounded : forall c b m,
+  guard c = true -> depth_limit c = Some m -> isize_max c <= usize_max c -> size_entry * lenN b <= isize_max c ->
+  depth_max (dec_pa c b) <= m + 1.
+Proof. exact guarded_depth_bounded. Qed.
+Check dec_depth_bounded : forall c b m,
+  guard c = true -> depth_limit c = Some m -> isize_max c <= usize_max c -> size_entry * lenN b <= isize_max c ->
+  depth_max (dec_pa c b) <= m + 1.
+Print Assumptions dec_depth_bounded.
+
+(* ---- REFUTED for the decoder as it is (cfg_unguarded); witnesses are replayed on /repo by the harness ---- *)
+
 Theorem dec_no_panic_refuted : exists b, result (dec_pa cfg_unguarded b) = Panic PCapacity.
 Proof. exists w_capacity. exact unguarded_capacity_panic. Qed.
 Check dec_no_panic_refuted : exists b, result (dec_pa cfg_unguarded b) = Panic PCapacity.
 Print Assumptions dec_no_panic_refuted.
+
+(* 9 input bytes, 64 TiB requested (the bound of dec_alloc_linear would be 594 bytes);
+   5 input bytes, typed error returned, 2 MiB allocated. *)
+Theorem dec_alloc_linear_refuted :
+  (exists b, lenN b = 9 /\ alloc_peak (dec_pa cfg_unguarded b) = 64 * (2 ^ 40 - 1)) /\
+  (exists b, lenN b = 5 /\ result (dec_pa cfg_unguarded b) = Err EIncomplete /\
+             alloc_peak (dec_pa cfg_unguarded b) = 2 ^ 21).
+Proof. exact (conj (ex_intro _ w_huge unguarded_huge_alloc) (ex_intro _ w_small_huge unguarded_small_huge_alloc)). Qed.
+Check dec_alloc_linear_refuted :
+  (exists b, lenN b = 9 /\ alloc_peak (dec_pa cfg_unguarded b) = 64 * (2 ^ 40 - 1)) /\
+  (exists b, lenN b = 5 /\ result (dec_pa cfg_unguarded b) = Err EIncomplete /\
+             alloc_peak (dec_pa cfg_unguarded b) = 2 ^ 21).
+Print Assumptions dec_alloc_linear_refuted.
+
+(* recursion depth follows the input: 2001 bytes, 2000 nested frames *)
+Theorem dec_depth_bounded_refuted :
+  exists b, lenN b = 2001 /\ depth_max (dec_pa cfg_unguarded b) = 2000.
+Proof. exact (ex_intro _ (nest 2000) unguarded_deep). Qed.
+Check dec_depth_bounded_refuted :
+  exists b, lenN b = 2001 /\ depth_max (dec_pa cfg_unguarded b) = 2000.
+Print Assumptions dec_depth_bounded_refuted.
+
+(* which configuration models /repo now (Model/CborPA.v: cfg_repo) *)
+Theorem repo_cfg_known : cfg_repo = cfg_unguarded \/ cfg_repo = cfg_guarded.
+Proof. exact repo_cfg_cases. Qed.
+Check repo_cfg_known : cfg_repo = cfg_unguarded \/ cfg_repo = cfg_guarded.
+Print Assumptions repo_cfg_known.
+
+(* Non-vacuity: the guarded configurations meet the hypotheses; a concrete nested input with a map,
+   text and bytes decodes to a value with non-zero meters, the hostile inputs become typed errors,
+   and the depth limit is reached exactly. *)
+Example c13_nonvacuous :
+  let b := [162; 1; 130; 97; 65; 66; 1; 2; 161; 2; 3; 246] in   (* {1: ["A", h'0102'], {2: 3}: null} *)
+  is_guarded cfg_guarded = true /\ isize_max cfg_guarded <= usize_max cfg_guarded /\
+  size_entry * lenN b <= isize_max cfg_guarded /\
+  result (dec_pa cfg_guarded b) =
+    Val (VMap [(VInt 1, VArr [VText [65]; VBytes [1; 2]]); (VMap [(VInt 2, VInt 3)], VNull)]) /\
+  alloc_peak (dec_pa cfg_guarded b) = 263 /\ depth_max (dec_pa cfg_guarded b) = 2 /\
+  result (dec_pa cfg_guarded w_capacity) = Err EIncomplete /\
+  result (dec_pa cfg_guarded w_huge) = Err EIncomplete /\ alloc_peak (dec_pa cfg_guarded w_huge) = 0 /\
+  (exists v, result (dec_pa cfg_guarded (nest 128)) = Val v) /\
+  result (dec_pa cfg_guarded (nest 129)) = Err EDepth /\ depth_max (dec_pa cfg_guarded (nest 129)) = 129 /\
+  is_guarded cfg_guarded32 = true /\ size_entry * lenN b <= isize_max cfg_guarded32.
+Proof. cbv zeta. repeat split; try (vm_compute; reflexivity); try (vm_compute; discriminate).
+  eexists. vm_compute. reflexivity. Qed.
